@@ -366,7 +366,15 @@ func ruleFieldDispatch(c *Ctx) []Ob {
 				}
 			}
 		}
-		s.check(okMk, "fieldIdx:size", c.Pos(ff.Pos()), "make([]int, maxID+1) with the addition done in int", "the dense index is not allocated with maxFieldID+1 entries computed without sub-word overflow")
+		if okMk {
+			// ... on every path: no return of fromDefsFields is reachable without the index having been installed
+			for _, b := range ff.Blocks {
+				if _, ok := b.Instrs[len(b.Instrs)-1].(*ssa.Return); ok && !mk.Block().Dominates(b) && mk.Block() != b {
+					okMk = false
+				}
+			}
+		}
+		s.check(okMk, "fieldIdx:size", c.Pos(ff.Pos()), "make([]int, maxID+1) with the addition done in int", "the dense index is not allocated, on every path, with maxFieldID+1 entries computed without sub-word overflow (GetField indexes it for every fid <= maxID, including a struct without fields)")
 		s.check(fillAll, "fieldIdx:fill", c.Pos(ff.Pos()), "every slot of fieldIdx is initialised to -1 (loop over the whole slice)", "fieldIdx is not filled with -1 over its whole length: an id without a field (e.g. 0) would resolve to field index 0")
 		s.check(setIdx && maxSet, "fieldIdx:set", c.Pos(ff.Pos()), "fieldIdx[f.ID] = i and maxID recorded", "fieldIdx[f.ID] / maxID are not recorded")
 	} else {
